@@ -264,11 +264,34 @@ func TestVerifC08Tamper(t *testing.T) {
 			if rapid.IntRange(0, 2).Draw(t, "tamperDuringLoad") == 0 {
 				at := rapid.IntRange(1, 9).Draw(t, "tamperLoadAt")
 				count := 0
+				upper := rapid.Bool().Draw(t, "tamperUpperTile")
 				s.w.yield = func(p *simProc, op *simOp) {
 					count++
-					if count == at {
-						tamper(fmt.Sprintf("during start-up before %s %s", op.Kind, op.Class))
+					if count != at {
+						return
 					}
+					if upper {
+						// time-of-check/time-of-use: flip a bit in a right-edge hash tile of level >= 1 (which no data
+						// tile cross-checks) between two of the server's reads
+						if lc, err := s.lockNow(); err == nil && lc.Size >= 256 {
+							for _, tr := range vfref.RequiredTiles(lc.Size) {
+								if tr.Level >= 1 && (tr.Index+1)*256 >= lc.Size>>(8*uint(tr.Level)) {
+									s.w.mu.Lock()
+									if cur, ok := s.w.objs[tr.Path()]; ok && len(cur) > 0 {
+										b := bytes.Clone(cur)
+										b[(at*7)%len(b)] ^= 0x10
+										s.w.objs[tr.Path()] = b
+										s.w.tampered = true
+										edgeHit = true
+										descf("tamper (during start-up before %s %s): bitflip %s", op.Kind, op.Key, tr.Path())
+									}
+									s.w.mu.Unlock()
+								}
+							}
+							return
+						}
+					}
+					tamper(fmt.Sprintf("during start-up before %s %s", op.Kind, op.Class))
 				}
 				defer func() { s.w.yield = nil }()
 			}
